@@ -959,6 +959,48 @@ fn huge_value_case(rep: &mut Report, i: u64, seed: u64) {
         k1 = p.6;
         k2 = p.7;
         n0 = p.8;
+    } else if i < 12 || i % 2 == 1 {
+        // BOTH end values huge (round 11; reported by the author of a seeded change: brent((0,100),
+        // 1e306 (x-3), 1e-6) evaluated f(inf) - its first secant point f_b (b-a)/(f_b-f_a) overflowed: D49):
+        // s*g(x-r) with |s| = 1e296 ... 1e307 and g linear, cubic, sine, tanh or d(1+d^2); cases 4..11 are pinned
+        let mut rng = Rng::for_case(if i < 12 { 4242 } else { seed }, "c07-huge-both", i);
+        let (kind, r, mut sg, c, lo_end, hi_end);
+        if i < 12 {
+            kind = Kind::Lin;
+            r = 3.0;
+            c = 1.0;
+            sg = [1e306, 1e307, -1e306, -1e307][(i % 4) as usize];
+            lo_end = 0.0;
+            hi_end = if i < 8 { 100.0 } else { 10.0 };
+        } else {
+            kind = [Kind::Lin, Kind::Cubic, Kind::Sin, Kind::Tanh, Kind::CubicPlus][rng.below(5)];
+            r = gen_centre(&mut rng);
+            c = rng.r(0.2, 3.0);
+            sg = rng.sign() * rng.log10(296.0, 307.5);
+            // one sign change only: the sine stays within half a period on either side
+            let reach = if kind == Kind::Sin { 0.45 * std::f64::consts::PI / c } else { 3.0 };
+            lo_end = r - reach * rng.r(0.05, 1.0);
+            hi_end = r + reach * rng.r(0.05, 1.0);
+        }
+        let mut g = Func::simple(kind, r, sg, c);
+        // keep both end values finite
+        while !(g.eval(lo_end).is_finite() && g.eval(hi_end).is_finite()) {
+            sg *= 0.1;
+            g = Func::simple(kind, r, sg, c);
+        }
+        if !(g.eval(lo_end).abs() > 1e290 && g.eval(hi_end).abs() > 1e290) {
+            return;
+        }
+        rep.count("problems/huge_finite_values_at_both_ends", 1);
+        f = g;
+        let swap = rng.bool();
+        a = if swap { hi_end } else { lo_end };
+        b = if swap { lo_end } else { hi_end };
+        tol = rng.log10(-12.0, -2.0);
+        let pr = gen_itp_params(&mut rng);
+        k1 = pr.0;
+        k2 = pr.1;
+        n0 = pr.2;
     } else {
         let mut rng = Rng::for_case(seed, "c07-huge", i);
         let r = gen_centre(&mut rng);
@@ -1012,7 +1054,7 @@ pub fn stages(ctx: &Ctx) -> Vec<Stage> {
         let mut rng = Rng::for_case(seed, "c07-random", i);
         random_case(&mut rng, rep);
     }));
-    st.push(Stage::new("huge-values", tier.pick(20_000, 200_000), move |i, rep| huge_value_case(rep, i, seed)));
+    st.push(Stage::new("huge-values", tier.pick(30_000, 300_000), move |i, rep| huge_value_case(rep, i, seed)));
     // exact-hit grid: complete in both tiers; thorough adds m <= 6, more tolerances, and the same
     // grid translated by 64 (dyadic, far from zero)
     let mj = mj_list(tier.pick(4, 6));
@@ -1032,6 +1074,7 @@ pub fn thresholds(ctx: &Ctx, rep: &Report) -> Vec<Threshold> {
     t.push(Threshold { what: "roots of size 1e5 ... 1e9 with a tolerance at or below the spacing of the floats".into(), required: ctx.tier.pick(800.0, 8_000.0), observed: rep.counter("problems/root_of_size_1e5_to_1e9_with_a_tolerance_near_the_float_spacing") as f64 });
     t.push(Threshold { what: "valid brackets already narrower than the tolerance".into(), required: ctx.tier.pick(500.0, 5_000.0), observed: rep.counter("problems/bracket_narrower_than_the_tolerance") as f64 });
     t.push(Threshold { what: "brackets with a finite end value above 1e290".into(), required: ctx.tier.pick(15_000.0, 150_000.0), observed: rep.counter("problems/huge_finite_end_value") as f64 });
+    t.push(Threshold { what: "brackets with finite values above 1e290 at BOTH ends".into(), required: ctx.tier.pick(7_000.0, 70_000.0), observed: rep.counter("problems/huge_finite_values_at_both_ends") as f64 });
     t.push(Threshold { what: "steep exponentials whose finite end values differ by more than 1e17".into(), required: ctx.tier.pick(1_000.0, 10_000.0), observed: rep.counter("problems/steep_exponential_with_end_values_1e17_apart") as f64 });
     t.push(Threshold { what: "steep exponentials with an end value that overflows to infinity".into(), required: ctx.tier.pick(100.0, 1_000.0), observed: rep.counter("problems/steep_exponential_with_an_infinite_end_value") as f64 });
     for s in ["bisection", "brent", "itp"] {
